@@ -73,6 +73,10 @@ def translate(repo=None):
     ov, oents = opsbody.emit(repo)
     ch1 = C.write_if_changed(os.path.join(C.GEN, "OpsSrc.v"), ov) or ch1
     data["ops_src"] = [{"file": e["file"], "line": e["line"], "flavour": e["flavour"], "trait": e["trait"], "fn": e["fn"], "body": e["term"]} for e in oents]
+    import delegbody
+    dv, drows = delegbody.emit(repo)
+    ch1 = C.write_if_changed(os.path.join(C.GEN, "DelegSrc.v"), dv) or ch1
+    data["deleg_src"] = drows
     cdata = uom2coq.tables_json(ctab)
     cdata["reading_stats"] = crstats
     data["custom"] = cdata
